@@ -12,18 +12,19 @@ ENGINE_NOTE = ("Trusted base: go/packages + go/types + go/ssa (x/tools v0.29.0) 
 
 claimed = {
  "C01": dict(
-  technique="layout extraction by abstract interpretation of Bytes() under the constructor's success state, compared with a specification table",
+  technique="layout extraction by abstract interpretation of Bytes() under the constructor's success state, compared with a specification table; derived-pointer (taint) analysis of the packet types' own methods",
   text=("Decides for all field values: the 20 request encoders write exactly the specified ADU layout without gap or overlap "
         "(R1.1), constructors accept only quantities inside the specification's limits with payload length tied to the quantity "
         "(R1.2), frames fit 260/256 bytes (R1.3), coil j is bit j mod 8 of byte j div 8 for every j (R1.4), no narrow arithmetic "
         "wraps (R1.W). FC16/FC23 constructor limits of 124 are known findings."
         " R1.5: protocol id bytes are the constant 0 for any struct contents."
         " R1.5 also: transaction id bytes are the struct's own for any contents."
-        " R1.6: the construction/encoding path uses no package-level variable that changes after initialisation (shared-state rule; locks, write-only atomics, sync.Once and private pool objects exempt)."),
+        " R1.6: the construction/encoding path uses no package-level variable that changes after initialisation (shared-state rule; locks, write-only atomics, sync.Once and private pool objects exempt)."
+        " R1.7: no method of a request type changes the request it is called on (receiver stores, writes into its own byte fields)."),
   note=ENGINE_NOTE + " The specification table in checker/spec.go is the oracle; the random transaction id is unconstrained.",
   ref="DESIGN.md §3 C01"),
  "C02": dict(
-  technique="symbolic round trip encode∘parse = id over a symbolic frame (parser read map composed with encoder write map)",
+  technique="symbolic round trip encode∘parse = id over a symbolic frame (parser read map composed with encoder write map); derived-pointer (taint) analysis of the packet types' own methods",
   text=("For every well-formed response frame of the ten functions in both framings: the parser's result, fed to Bytes(), "
         "reproduces the frame segment by segment (R2.1); byte-counted responses are accepted only with consistent length (R2.2); "
         "exception frames are recognised exactly and carry unit/function/code (R2.3); dispatchers agree with parsers (R2.4)."
@@ -31,7 +32,8 @@ claimed = {
         " Also R2.7 (dispatchers never return nil,nil) and the framing-mix rule on constructors."
         " R2.6 also on the dispatchers (no well-formed size refused before the per-function parser); R2.8 shared-state rule for parsers, recognisers and re-encoding."
         " R2.4 whole-input clause; R2.9 the client parses exactly what it received."
-        " R2.3 also on every reply dispatcher: an exception-length frame with bit 7 set comes back as the typed exception (or the CRC failure), never another error."),
+        " R2.3 also on every reply dispatcher: an exception-length frame with bit 7 set comes back as the typed exception (or the CRC failure), never another error."
+        " R2.10 (= R13.4): no method of a reply type or of Registers writes the payload."),
   note=ENGINE_NOTE + " Premises are printed in evidence (protocol id 0, MBAP length = len-6, function byte = case constant, legal FC5 value, fixed-size replies have their length, FC17 within one ADU).",
   ref="DESIGN.md §3 C02"),
  "C03": dict(
@@ -70,7 +72,8 @@ claimed = {
         " Also R5.9: Validate accepts every well-formed field."
         " Also R5.10 (definitions stored as given) and R5.11 (= C04 window rules)."
         " R5.12: building requests is read-only on the builder (field list not written, no state kept)."
-        " R5.4 fresh components per iteration; R5.12 clause 3 (definitions not edited while building)."),
+        " R5.4 fresh components per iteration; R5.12 clause 3 (definitions not edited while building)."
+        " R5.13 (= R4.3): accessors decode with the field's order for word order and byte order alike."),
   note=ENGINE_NOTE,
   ref="DESIGN.md §3 C05"),
  "C06": dict(
@@ -103,7 +106,8 @@ claimed = {
         "is NOT decided; finite serial reads are assumed."
         " Also R8.6 usable timeouts/functions and configuration plumbing, R8.7 connection stored only after a successful dial, R8.8 installed reply functions cannot panic, R8.9 no exit leaves the client mutex held."
         " Also R8.10 Unwrap returns the cause; guard purity; helper obligations with the Flusher field invariant."
-        " R8.11 dispatchers hand their whole input to the parsers."),
+        " R8.11 dispatchers hand their whole input to the parsers."
+        " R8.1/R8.2 follow a non-blocking poll helper; R8.3 cause clause: an error formatted into a ClientError's cause is wrapped with %w."),
   note=ENGINE_NOTE,
   ref="DESIGN.md §3 C08"),
  "C09": dict(
@@ -128,14 +132,15 @@ claimed = {
   note=ENGINE_NOTE + " Not covered: panics inside standard-library callees other than encoding/binary accessors; behaviour on 32-bit int.",
   ref="DESIGN.md §3 C10"),
  "C11": dict(
-  technique="abstract interpretation + SSA value-identity extraction of the (byte, bit) position functions of isBitSet and CoilsToBytes",
+  technique="abstract interpretation + SSA value-identity extraction of the (byte, bit) position functions of isBitSet and CoilsToBytes; derived-pointer (taint) analysis of the packet types' own methods",
   text=("Decides the coil position function of the lookup and of the packer symbolically for all addresses and payload sizes, "
         "their agreement with the specification layout and with each other, range errors both ways, and the plumbing of the "
         "three wrappers. The write/read-back clause follows from those for every pattern. The byte-order defect of isBitSet is "
         "a known finding (pinned by existing tests)."
         " Also R11.4 wrappers only forward, R11.5 recogniser and parser of one framing, R11.6 replies are fresh copies."
         " R11.7 (= R1.1 for FC15 encoders)."
-        " R11.8 (= R5.2): extraction asks the reply itself, with (request start, field address)."),
+        " R11.8 (= R5.2): extraction asks the reply itself, with (request start, field address)."
+        " R11.9 (= R13.4): no method of a coil reply type writes its payload."),
   note=ENGINE_NOTE,
   ref="DESIGN.md §3 C11"),
  "C12": dict(
@@ -147,7 +152,8 @@ claimed = {
         " R12.4: the recogniser sees received[0:total]."
         " Also R12.5 (parser gets do's result unchanged) and R12.6 (= R3.4)."
         " R12.7: recogniser consulted on the whole frame also in Do."
-        " R12.8: shared-state rule for the clients' request path and CRC16."),
+        " R12.8: shared-state rule for the clients' request path and CRC16."
+        " R12.9 (= R7.2): what is CRC-checked is exactly what was received."),
   note=ENGINE_NOTE,
   ref="DESIGN.md §3 C12"),
  "C13": dict(
@@ -156,7 +162,8 @@ claimed = {
         "through payload-derived memory, no escape to non-allow-listed code (R13.1), no store to globals or through pointer "
         "parameters/receivers (R13.2). Hence repeatability and order independence for all call sequences."
         " R13.2 includes the shared-state scan (package-level buffers, pools, caches)."
-        " R13.3 each FieldValue built afresh (order independence of results)."),
+        " R13.3 each FieldValue built afresh (order independence of results)."
+        " R13.4 every method of the reply types and of Registers; R13.5 extraction does not write the request's field list."),
   note=ENGINE_NOTE + " Aliasing is tracked by derived-pointer propagation only (no pointer analysis is available at x/tools v0.29.0).",
   ref="DESIGN.md §3 C13"),
  "C14": dict(
@@ -194,7 +201,8 @@ claimed = {
         " R16.6: no write to package-level state on the per-connection path."
         " R16.7 (= R15.3)."
         " R16.9 a failed reply write ends the connection."
-        " R16.5 also: nothing in the deferred recovery can itself panic."),
+        " R16.5 also: nothing in the deferred recovery can itself panic."
+        " R16.10 (= R15.5): one fresh assembler per connection."),
   note=ENGINE_NOTE,
   ref="DESIGN.md §3 C16"),
  "C17": dict(
@@ -208,7 +216,8 @@ claimed = {
         " R17.11 (= R16.6)."
         " R17.12: reply write deadline from a fresh clock reading."
         " R17.13: every way into the accept loop has stored the accepted-on listener in the Server before Accept."
-        " R17.6 also: the in-flight flag is cleared on every path back to the read."),
+        " R17.6 also: the in-flight flag is cleared on every path back to the read."
+        " R17.12 also: a deadline armed before the handler ran is re-armed before the reply write."),
   note=ENGINE_NOTE,
   ref="DESIGN.md §3 C17"),
  "C18": dict(
